@@ -15,57 +15,66 @@ import (
 // tables run) on a real DB with a tiny memtable and eager compaction. At the end every
 // retained checkpoint must still restore to its contents (all its SST and WAL files exist and
 // are intact), the live database must read correctly (its current tables exist), and the WAL
-// files of dropped checkpoints must be gone once the retention update was saved.
+// files of dropped checkpoints must be gone once the retention update was saved. Finally the
+// database is closed and dropped (a redeploy in the same process) and its objects are garbage
+// collected before the retained checkpoints are restored.
 func Harness_C09_Retention() {
 	verif.FixedRand(3, 1, 4, 1, 5, 9, 2, 6)
 	verif.Abstract("bloom.Filter")
 	root := storage.NewMemoryFilesystem()
 	fs := root.WithWorkingDir("op1")
-	db := Open(DBOptions{FileSystem: fs, MemTableSize: 20, TargetFileSize: 64, L0TableNumCompactionTrigger: 2}, nil)
-	m := newVerifModel()
 	var ckpts []verifCkpt // all checkpoints taken, in order; WAL file of the i-th is %06d.wal
 	retainedFrom := 0     // index of the oldest retained checkpoint
-	k := verif.Param("K", 5)
-	for step := 0; step < k; step++ {
-		nops := 2*len(verifKeys) + 1
-		op := verif.Choose("op", nops+3)
-		switch {
-		case op < nops:
+	// the database lives in its own function so that nothing refers to it afterwards
+	session := func() {
+		db := Open(DBOptions{FileSystem: fs, MemTableSize: 20, TargetFileSize: 64, L0TableNumCompactionTrigger: 2}, nil)
+		m := newVerifModel()
+		k := verif.Param("K", 5)
+		for step := 0; step < k; step++ {
+			nops := 2*len(verifKeys) + 1
+			op := verif.Choose("op", nops+3)
 			switch {
-			case op < len(verifKeys):
-				v := verif.Bytes("v", 1)
-				db.Put(verifKeys[op], v)
-				m.val[op], m.live[op] = v, true
-			case op < 2*len(verifKeys):
-				i := op - len(verifKeys)
-				db.Delete(verifKeys[i])
-				m.val[i], m.live[i] = nil, false
-			default:
-				verif.Assert(db.WaitOnTasks() == nil, "background-tasks-succeed")
-			}
-		case op == nops: // checkpoint
-			if len(ckpts) >= verif.Param("CKPTS", 3) {
-				break
-			}
-			id := uint64(len(ckpts) + 1)
-			h, err := db.Checkpoint(id)()
-			verif.Assert(err == nil, "checkpoint-succeeds")
-			ckpts = append(ckpts, verifCkpt{h, m.clone()})
-		case op == nops+1: // the job announces that only the newest completed checkpoint is retained
-			if len(ckpts) > 0 {
-				verif.Assert(db.UpdateRetainedCheckpoints([]uint64{uint64(len(ckpts))}) == nil, "retention-update-succeeds")
-				retainedFrom = len(ckpts) - 1
-				for i := 0; i < retainedFrom; i++ {
-					verif.Assert(!fs.Exists(fmt.Sprintf("%06d.wal", i)), "wal-of-dropped-checkpoint-removed-after-retention-save")
+			case op < nops:
+				switch {
+				case op < len(verifKeys):
+					v := verif.Bytes("v", 1)
+					db.Put(verifKeys[op], v)
+					m.val[op], m.live[op] = v, true
+				case op < 2*len(verifKeys):
+					i := op - len(verifKeys)
+					db.Delete(verifKeys[i])
+					m.val[i], m.live[i] = nil, false
+				default:
+					verif.Assert(db.WaitOnTasks() == nil, "background-tasks-succeed")
 				}
+			case op == nops: // checkpoint
+				if len(ckpts) >= verif.Param("CKPTS", 3) {
+					break
+				}
+				id := uint64(len(ckpts) + 1)
+				h, err := db.Checkpoint(id)()
+				verif.Assert(err == nil, "checkpoint-succeeds")
+				ckpts = append(ckpts, verifCkpt{h, m.clone()})
+			case op == nops+1: // the job announces that only the newest completed checkpoint is retained
+				if len(ckpts) > 0 {
+					verif.Assert(db.UpdateRetainedCheckpoints([]uint64{uint64(len(ckpts))}) == nil, "retention-update-succeeds")
+					retainedFrom = len(ckpts) - 1
+					for i := 0; i < retainedFrom; i++ {
+						verif.Assert(!fs.Exists(fmt.Sprintf("%06d.wal", i)), "wal-of-dropped-checkpoint-removed-after-retention-save")
+					}
+				}
+			case op == nops+2: // garbage collection
+				verif.RunCleanups()
 			}
-		case op == nops+2: // garbage collection
-			verif.RunCleanups()
 		}
+		verif.Assert(db.WaitOnTasks() == nil, "background-tasks-succeed")
+		verif.RunCleanups()
+		verifCheckReads(db, m, "live")
+		// the operator is redeployed in the same process: the database is closed and dropped
+		verif.Assert(db.Close() == nil, "close-succeeds")
 	}
-	verif.Assert(db.WaitOnTasks() == nil, "background-tasks-succeed")
-	verif.RunCleanups()
-	verifCheckReads(db, m, "live")
+	session()
+	verif.RunCleanups() // the closed database's in-memory objects are garbage now
 	for i := retainedFrom; i < len(ckpts); i++ {
 		c := ckpts[i]
 		r := Open(DBOptions{FileSystem: root.WithWorkingDir(fmt.Sprintf("restore%d", i)), MemTableSize: 20, TargetFileSize: 64, L0TableNumCompactionTrigger: 2}, []recovery.CheckpointHandle{c.handle})
@@ -149,5 +158,51 @@ func Harness_C09_RescaleRetention() {
 	verif.RunCleanups()
 	r6 := Open(opts(root.WithWorkingDir("restore6"), all), []recovery.CheckpointHandle{h6})
 	check(r6, after, "newly-retained-checkpoint-restores-after-the-old-one-was-dropped")
+	verif.Reached()
+}
+
+// Harness_C09_CloseKeepsRetained: R rounds of 1..3 writes (every write is flushed to its own
+// table; two level-0 tables trigger a compaction), background work, a checkpoint and optionally
+// the job's notice that only this checkpoint is retained. Then the database is closed and
+// dropped (redeploy in the same process) and its objects are garbage collected. Every
+// checkpoint that is still retained - not only the newest - must restore to its contents.
+func Harness_C09_CloseKeepsRetained() {
+	verif.FixedRand(3, 1, 4, 1, 5, 9, 2, 6)
+	verif.Abstract("bloom.Filter")
+	root := storage.NewMemoryFilesystem()
+	var ckpts []verifCkpt
+	retainedFrom := 0
+	session := func() {
+		db := Open(DBOptions{FileSystem: root.WithWorkingDir("op1"), MemTableSize: 10, TargetFileSize: 64, L0TableNumCompactionTrigger: 2}, nil)
+		m := newVerifModel()
+		rounds := verif.Param("R", 2)
+		for round := 0; round < rounds; round++ {
+			n := 1 + verif.Choose("writes", 3)
+			for w := 0; w < n; w++ {
+				i := verif.Choose("key", len(verifKeys))
+				v := verif.Bytes("v", 1)
+				db.Put(verifKeys[i], v)
+				m.val[i], m.live[i] = v, true
+			}
+			verif.Assert(db.WaitOnTasks() == nil, "background-tasks-succeed")
+			id := uint64(round + 1)
+			h, err := db.Checkpoint(id)()
+			verif.Assert(err == nil, "checkpoint-succeeds")
+			ckpts = append(ckpts, verifCkpt{h, m.clone()})
+			if verif.Choose("job-retains-only-this-checkpoint", 2) == 1 {
+				verif.Assert(db.UpdateRetainedCheckpoints([]uint64{id}) == nil, "retention-update-succeeds")
+				retainedFrom = round
+			}
+		}
+		verif.Assert(db.WaitOnTasks() == nil, "background-tasks-succeed")
+		verif.Assert(db.Close() == nil, "close-succeeds")
+	}
+	session()
+	verif.RunCleanups()
+	for i := retainedFrom; i < len(ckpts); i++ {
+		c := ckpts[i]
+		r := Open(DBOptions{FileSystem: root.WithWorkingDir(fmt.Sprintf("restore%d", i)), MemTableSize: 10, TargetFileSize: 64, L0TableNumCompactionTrigger: 2}, []recovery.CheckpointHandle{c.handle})
+		verifCheckReads(r, c.snap, "retained-after-close")
+	}
 	verif.Reached()
 }
